@@ -23,6 +23,8 @@ when it creates the namespace, bit = order of creation):
               random shuffles of the whole list: the result has every namespace taxon on
               exactly one leaf, its split set over the namespace is the one encoded, and its
               restriction to the source leaf set is the source topology.
+  random      seeded random 8-10 leaf trees over a 12-taxon namespace: encode clauses with random
+              options, reconstruction from sampled orders.
   predicates  Bipartition.is_trivial / is_compatible_with / is_leafset_nested_within for all
               pairs of subsets of the leaf set; Tree.is_compatible_with_bipartition for every
               tree x every subset, with and without is_bipartitions_updated.
